@@ -809,6 +809,8 @@ class Gen:
                     sq = self.scalar_subquery(scope)
                     if sq is not None:
                         e, ty = sq, INT
+                if as_source and not f.get("derived_const", True) and not cols_of(e):
+                    e = self.colref(scope, ty) or e
                 alias = self.new_alias("p")
                 if (e[0] == "col" and self.chance(0.3) and not as_source and e[2] not in [n for n, _, _ in q.out]
                         and sum(1 for s2 in scope for c2 in s2.cols if c2[0] == e[2]) == 1):
@@ -1108,10 +1110,18 @@ def _conjuncts(e):
     return [e]
 
 
+def _juncts(e, op):
+    while e[0] == "paren":
+        e = e[1]
+    if e[0] == "bin" and e[1] == op:
+        return _juncts(e[2], op) + _juncts(e[3], op)
+    return [e]
+
+
 def _const_pair(e):
-    """AND with two comparisons of the same column against literals (listed finding: simplify folds a
-    contradictory pair to FALSE, losing NULL)"""
-    if not (e[0] == "bin" and e[1] == "AND"):
+    """AND / OR with two comparisons of the same column against literals (listed findings: simplify folds a
+    contradictory AND pair to FALSE, losing NULL; and merges an OR pair to the wrong bound)"""
+    if not (e[0] == "bin" and e[1] in ("AND", "OR")):
         return False
-    names = [n for n in (_cmp_col_const(c) for c in _conjuncts(e)) if n]
+    names = [n for n in (_cmp_col_const(c) for c in _juncts(e, e[1])) if n]
     return len(names) != len(set(names))
